@@ -27,7 +27,6 @@ var verifInventory = map[string][]string{
 	"Session":    {"Id", "auth", "loggedIn", "Nick", "Username", "Realname", "Channels", "LastActivity", "LastNonPing", "LastSolvedCaptcha", "Operator", "AwayMsg", "Created", "throttlingExponent", "invitedTo", "modes", "svid", "Pass", "Server", "lastClientMessageId", "ircPrefix", "deleted", "RemoteAddr"},
 	"channel":    {"name", "topicNick", "topicTime", "topic", "nicks", "modes", "key", "bans"},
 	"banPattern": {"re", "pattern"},
-	"svshold":    {"added", "duration", "reason"},
 	"Network":    {"Revision", "IRC", "SessionExpiration", "PostMessageCooloff", "TrustedBridges", "CaptchaURL", "CaptchaHMACSecret", "CaptchaRequiredForLogin", "MaxSessions", "MaxChannels", "Banned", "WhitelistedOrigins"},
 	"IRC":        {"Operators", "Services"},
 	"IRCOp":      {"Name", "Password"},
@@ -62,7 +61,7 @@ func vSimpleKind(t reflect.Type) bool {
 func VerifCheckInventory() error {
 	types := []reflect.Type{
 		reflect.TypeOf(IRCServer{}), reflect.TypeOf(Session{}), reflect.TypeOf(channel{}),
-		reflect.TypeOf(banPattern{}), reflect.TypeOf(svshold{}), reflect.TypeOf(config.Network{}),
+		reflect.TypeOf(banPattern{}), reflect.TypeOf(config.Network{}),
 		reflect.TypeOf(config.IRC{}), reflect.TypeOf(config.IRCOp{}), reflect.TypeOf(config.Service{}),
 		reflect.TypeOf(robust.Id{}),
 	}
@@ -460,9 +459,27 @@ func VerifDump(i *IRCServer, o VerifDumpOpts) string {
 	sort.Strings(hks)
 	d.b.WriteString(" SVSHOLDS\n")
 	for _, k := range hks {
+		// (by reflection: the representation of a hold is free to change)
 		h := i.svsholds[lcNick(k)]
-		fmt.Fprintf(&d.b, "  H %q dur=%d reason=%q", k, int64(h.duration), h.reason)
-		d.t("added", h.added)
+		fmt.Fprintf(&d.b, "  H %q", k)
+		hv := reflect.ValueOf(&h).Elem()
+		for fi := 0; fi < hv.NumField(); fi++ {
+			f := hv.Field(fi)
+			f = reflect.NewAt(f.Type(), unsafe.Pointer(f.UnsafeAddr())).Elem()
+			name := hv.Type().Field(fi).Name
+			switch x := f.Interface().(type) {
+			case time.Time:
+				d.t(name, x)
+			case time.Duration:
+				fmt.Fprintf(&d.b, " %s=%d", name, int64(x))
+			case string:
+				fmt.Fprintf(&d.b, " %s=%q", name, x)
+			default:
+				var sb strings.Builder
+				vDeep(&sb, f, map[uintptr]bool{}, 0)
+				fmt.Fprintf(&d.b, " %s=%s", name, sb.String())
+			}
+		}
 		d.b.WriteString("\n")
 	}
 	return d.b.String()
